@@ -90,9 +90,7 @@ uint32_t SNAP::header_size() const {
 void SNAP::write_serialization(uint8_t* buffer, uint32_t total_sz) {
     OutputMemoryStream stream(buffer, total_sz);
     if (inner_pdu()) {
-        Constants::Ethernet::e flag = Internals::pdu_flag_to_ether_type(
-            inner_pdu()->pdu_type()
-        );
+        Constants::Ethernet::e flag = Internals::pdu_to_ether_type(*inner_pdu());
         snap_.eth_type = Endian::host_to_be(
             static_cast<uint16_t>(flag)
         );
